@@ -491,13 +491,22 @@ def run_remapper(name):
 _configs0, _run0, _replay0 = configs, run_config, replay
 
 
+# the CSR bridge (part of this property's statement) is explored by the bridge harness of C09; its full-word / no-lane configurations run here too
+# (the partial-select configuration carries C09's known finding KF-C09-1 and stays there)
+CSR_BRIDGE = ("Wishbone2CSR(32bit,register=True)", "Wishbone2CSR(32bit,register=False)",
+              "Wishbone2CSR(32bit,register=False),no-lane cycles", "Wishbone2CSR(32bit,register=True),no-lane cycles")
+
+
 def configs(tier):
-    return _configs0(tier) + [(n,) for n in REMAP]
+    return _configs0(tier) + [(n,) for n in REMAP] + [(n,) for n in CSR_BRIDGE]
 
 
 def run_config(cfg, seed, tier):
     if cfg[0] in REMAP:
         return run_remapper(cfg[0])
+    if cfg[0] in CSR_BRIDGE:
+        from checks import c09_bridges
+        return c09_bridges.run_config(cfg, seed, tier)
     return _run0(cfg, seed, tier)
 
 
@@ -505,4 +514,7 @@ def replay(rec):
     if rec["cfg"] in REMAP:
         r = run_remapper(rec["cfg"])
         return dict(cfg=rec["cfg"], rule=rec["rule"], reproduced=bool(r["violations"]))
+    if rec["cfg"] in CSR_BRIDGE:
+        from checks import c09_bridges
+        return c09_bridges.replay(rec)
     return _replay0(rec)
